@@ -152,7 +152,7 @@ def tlc(module, cfg, wd, *, workers=4, timeout=900, env=None, simulate=None, dep
     out_path = os.path.join(wd, "tlc_%s.out" % tag)
     meta = os.path.join(wd, "meta_%s" % tag)
     shutil.rmtree(meta, ignore_errors=True)
-    jopts = "-Xss1g"
+    jopts = "-Xss1g -Dfile.encoding=UTF-8"
     if dfs:
         jopts += " -Dtlc2.tool.queue.IStateQueue=StateDeque"
     e = dict(os.environ)
